@@ -221,6 +221,7 @@ GENERIC_RULES = [
     R("G:consteval", r'\bconsteval\s+', '', False),
     R("G:noexcept", r'\s*\bnoexcept\b', '', False),
     R("G:inline", r'\binline\s+', '', False),
+    R("G:brace-cast", r'(?<![\w>.])(uint32_t|uint64_t|int64_t|int32_t|uint8_t|int|size_t|unsigned int)\{([^{};]*)\}', r'((\1)(\2))', False),
     R("G:brace-init", r'\b((?:const\s+)?(?:bool|int|unsigned int|unsigned|int64_t|uint64_t|uint32_t|int32_t|uint8_t|size_t|CAmount)\s+\w+)\{([^{};]*)\}\s*;', r'\1 = (\2);', False),
     R("G:functional-cast", r'(?<![\w>.])(int|int64_t|uint64_t|uint32_t|int32_t|uint8_t|unsigned int|size_t)\((?!\))', r'(\1)(', False),
     R("G:bool-literals", r'\b(true|false)\b', lambda m: '1' if m.group(1) == 'true' else '0', False),
